@@ -386,8 +386,28 @@ def fastq_readers_agree(ctx, rule):
            "the two readers of the same text disagree on what a line does to the parser state: " + diff, loops[1].lineno)
 
 
+def genbank_field_name_rule(ctx, rule):
+    """a GenBank field name stands in the first 12 columns of its first line (the content starts at column 13): the re-indexer reads the name
+    from those columns - a name with a blank inside (`BASE COUNT`) or one that fills all twelve is one name - and the content reader cuts
+    the same twelve columns off"""
+    from ..exprnorm import same_expr
+    src = ctx.src(GB)
+    fi = src.func("GenBankFile._find_field_indices")
+    names_ = [st.value for st in ast.walk(fi) if isinstance(st, ast.Assign) and len(st.targets) == 1 and same_expr(st.targets[0], "name")
+              and not isinstance(st.value, ast.Constant)]
+    ctx.need(len(names_) >= 1, "the field name read by GenBankFile._find_field_indices")
+    ok_name = all(any(same_expr(v_, t_) for t_ in ("line[0:12].strip()", "line[:12].strip()", "line[0:12].rstrip()", "line[:12].rstrip()")) for v_ in names_)
+    gc_ = src.func("GenBankFile._get_field_content")
+    ok_cut = any(isinstance(x, ast.Subscript) and isinstance(x.slice, ast.Slice) and x.slice.upper is None and x.slice.lower is not None
+                 and same_expr(x.slice.lower, "12") for x in ast.walk(gc_))
+    ctx.ob(rule, GB, "GenBankFile._find_field_indices", "name = line[0:12].strip(); content = line[12:]", ok_name and ok_cut,
+           "the field name is not read from the twelve name columns (or the content is not cut behind them): after a re-index a field like "
+           "`BASE COUNT` has another name than the one it was stored under, and set / get by name miss it", fi.lineno)
+
+
 def run(ctx):
     file_mode_rules(ctx, "R1")
+    genbank_field_name_rule(ctx, "R3.field-name-columns")
     fastq_readers_agree(ctx, "R3.fastq-readers-agree")
     rna_spelling_rules(ctx)
     nucleotide_text_rule(ctx, "R2.nucleotide-text-normalised")
